@@ -224,7 +224,7 @@ def check_scalar(A, code, vendor, cls, tname, entry_mand, value, m, p, out, ctx)
                              f"{case}: got {wire.hex()[:120]} want {rc.enc_avp(code, ref_payload, fl, vendor).hex()[:120]}", case))
         return
     # decode the reference wire in the flag variants the library itself may never emit
-    for wfl in {fl, fl ^ M, fl | P, 0}:
+    for wfl in {fl, fl ^ M, fl | P, 0, fl | 0x01, 0x1f, M | 0x10}:      # incl. reserved bits: still well-formed, must survive the round trip
         w = rc.enc_avp(code, ref_payload, wfl, vendor)
         try:
             d = A.Avp.from_bytes(w)
@@ -465,7 +465,7 @@ def work_misc(_):
     for code, vnd in ((9_000_001, 0), (9_000_002, 99_999), (268, 424242), (1, 10415 + 1), (0xffffffff, 0xffffffff)):
         for L in range(0, 17):
             payload = bytes((i * 13 + 1) & 0xff for i in range(L))
-            for fl in (0, M, P, M | P):
+            for fl in (0, M, P, M | P, 0x01, M | 0x1f):
                 n += 1
                 w = rc.enc_avp(code, payload, fl, vnd)
                 case = {"code": code, "vendor": vnd, "len": L, "flags": fl}
